@@ -264,6 +264,9 @@ class Ctx:
             return self._record(name, "failed", detail="shape %s vs %s" % (fa.shape, fb.shape))
         tol = tol or self.tol
         scale = max(1.0, float(np.max(np.abs(fb))) if fb.size else 1.0, float(np.max(np.abs(fa))) if fa.size else 1.0)
+        if getattr(self, "relative", False) and fa.size:
+            scale = max(float(np.max(np.abs(fb))), float(np.max(np.abs(fa))), 1e-300)
+            tol = max(tol, 1e-6)
         err = float(np.max(np.abs(fa - fb))) if fa.size else 0.0
         if not (err <= tol * scale):
             return self._record(name, "failed", detail="max abs diff %.3e (scale %.3e)" % (err, scale))
@@ -337,12 +340,15 @@ class Ctx:
 
 
 # ------------------------------------------------------------------------------------------ running one config
-def run_concrete(scenario, params, mode, values=None, seed=0):
-    """returns (ctx, exception or None)"""
+def run_concrete(scenario, params, mode, values=None, seed=0, relative=False):
+    """returns (ctx, exception or None).  relative=True (replay of a solver counterexample only): equalities are compared
+    relative to the magnitude of the operands without the floor of 1, so that a counterexample made of tiny numbers (which the
+    solver found in exact arithmetic) is not lost below an absolute tolerance"""
     import random
     rng = random.Random(seed * 7919 + 13)
     vals = dict(values or {})
     cx = Ctx(mode, values=vals, rng=rng)
+    cx.relative = relative
     exc = None
     try:
         if mode == "shim":
@@ -757,6 +763,15 @@ def _replay_candidate(scenario, params, cand, res, tentative=False):
         cand["replay"] = "real code violates the claim: %s" % (st[0]["detail"],)
         res["violations"].append(cand)
         return
+    if st and er is None and not tentative:
+        # second look with a purely relative comparison (the counterexample may consist of tiny numbers)
+        crr, err_ = run_concrete(scenario, params, "real", values=vals, seed=0, relative=True)
+        str_ = [c for c in crr.claims if c["name"] == name]
+        if err_ is None and str_ and str_[0]["status"] == "failed":
+            cand["confirmed"] = True
+            cand["replay"] = "real code violates the claim (relative comparison): %s" % (str_[0]["detail"],)
+            res["violations"].append(cand)
+            return
     if er is not None and not isinstance(er, (PathAbort, Inconclusive)):
         cand["confirmed"] = True
         cand["replay"] = "real code raised %s" % (cr.outcome[1],)
